@@ -8,7 +8,12 @@ BASE = ("Trusted: TLC/SANY, refmcap (independent codec written from the MCAP spe
 T_W = "TLA+ property layer (MCAPFormat.tla) + writer model (Writer/WriterMC.tla) model-checked by TLC; TLC trace validation of the real writer and readers (TraceWriter.tla, drift via TraceWriterImpl.tla); TLC -simulate behaviours replayed into the real writer"
 T_R = "TLA+ lexer model (Lexer/LexerMC.tla) model-checked by TLC against ReadProps.tla; exhaustive cut / fault / bit-flip enumeration on real files judged by TLC trace validation (TraceRead.tla)"
 T_I = "TLA+ iterator model (IndexedRead.tla) model-checked by TLC against IndexProps.tla over every small file x order x topic set x window; TLC trace validation of the real reader on the enumerated file space, random large files and writer-produced files (TraceIndexed.tla); model replay against recorded reads (IndexedReplay.tla, drift)"
+T_L = "TLA+ layout generator (Layout.tla: TLC enumerates every spec-legal layout / insertion set and checks order-independence of the summary-pass model); layouts built by the reference encoder and read by the real readers; TLC trace validation (TraceWriter.tla layout judge + TraceIndexed.tla)"
+T_C = "TLA+ property layer (MCAPFormat.tla) judging the regenerated reference binaries and the Go write tool's outputs by TLC trace validation; reference encoder pinned by 416 LFS sha256 hashes; finite matrix enumerated completely"
 CHECKS = [
+ ("C11", "model_checking", T_L, "6 C11", "Every subset of 10 insertion positions x padding, enumerated by TLC from Layout.tla, built by the reference encoder for seeded contents and read by lexer, scan, indexed reads and Info; plus the 208 padded conformance binaries; TLC judges every report against the logical content."),
+ ("C12", "model_checking", T_L, "6 C12", "All legal arrangements of all subsets of the summary groups and all data layouts (chunk partitions, compressions, definition placement) enumerated by TLC, built by the reference encoder and read by every Go read path; TLC judges content and index-based reads per layout; the summary-pass model is checked order-independent (the pre-fix pass is kept as a violated witness)."),
+ ("C17", "model_checking", T_C, "6 C17", "All 416 vectors: reference binaries regenerated and hash-pinned, judged by the TLA+ format spec, read by lexer/scan and by test-read-conformance (streamed + indexed), written by test-write-conformance (208 non-padded, byte-identical), tool outputs judged by the same spec."),
  ("C02", "model_checking", T_I, "6 C02", "Index-based vs scan reads, Info, random access to every indexed attachment/metadata record and the metadata callback on files written by the real writer in random configurations, judged by TLC (IndexedAllowed: exact, fallback or error - never silently fewer); iterator model checked exhaustively."),
  ("C03", "model_checking", T_I, "6 C03", "Every file of the enumerated scope (2 chunks x <=2 messages x 4 times x 2 channels; thorough adds 3-chunk scopes) and random large files read in log / reverse-log order twice; TLC judges exactly-once, sortedness, same-chunk ties, repeatability; the iterator model satisfies the same properties for every file of its scope (TLC exhaustive, incl. the key lemma YieldSafe and termination)."),
  ("C04", "model_checking", T_I, "6 C04", "Topic sets x windows (bounds from message times, chunk bounds, 0, 2^64-1) x every API form x indexed/scan x 3 orders on the same file space; TLC recomputes the selection (SelectExact); iterator model checked exhaustively over all windows and topic sets of its scope."),
